@@ -62,9 +62,9 @@ Definition decomp_val (t1 : list (nat * float * float)) (t2 : list (nat * float 
 From SFV Require Import C10.Engine.
 Definition frun (mode : nat) (fp : list (nat * fpar float)) (segs : list (list (event float))) : list (res float) :=
   let free := fun n => match lookup fp n with Some p => free_value p | None => None end in
-  let fwd := match mode with
-             | 0 => @fwd_written float
-             | 1 => @fwd_written_lazy float
-             | _ => @fwd_ideal float
-             end in
-  snd (run_segs PrimFloat.add PrimFloat.mul PrimFloat.div PrimFloat.opp 1%float (tbl1 []) (tbl2 []) fwd free (@empty float) segs).
+  match mode with
+  | 0 => snd (run_segs PrimFloat.add PrimFloat.mul PrimFloat.div PrimFloat.opp 1%float (tbl1 []) (tbl2 []) false free (@empty float) [] segs)
+  | 1 => snd (run_segs PrimFloat.add PrimFloat.mul PrimFloat.div PrimFloat.opp 1%float (tbl1 []) (tbl2 []) true free (@empty float) [] segs)
+  | 2 => snd (run_seg PrimFloat.add PrimFloat.mul PrimFloat.div PrimFloat.opp 1%float (tbl1 []) (tbl2 []) free (@empty float) (concat segs))
+  | _ => snd (run_segs_old PrimFloat.add PrimFloat.mul PrimFloat.div PrimFloat.opp 1%float (tbl1 []) (tbl2 []) free (@empty float) segs)
+  end.
